@@ -1,4 +1,4 @@
-use easy_error::{ensure, err_msg, Error, ResultExt};
+use easy_error::{ensure, Error, ResultExt};
 use futures::TryFutureExt;
 use milu::{
     parser::parse,
@@ -88,9 +88,9 @@ impl AccessLog {
         let (tx, rx) = channel(100);
         self.tx = Some(tx.clone());
         let format = self.format.create()?;
-        tokio::spawn(
-            log_thread(format, rx, path).unwrap_or_else(|e| panic!("{} cause: {:?}", e, e.cause)),
-        );
+        tokio::spawn(log_thread(format, rx, path).unwrap_or_else(|e| {
+            tracing::error!("access log stopped: {} cause: {:?}", e, e.cause)
+        }));
         tokio::spawn(signal_watch(tx));
         Ok(())
     }
@@ -131,9 +131,21 @@ async fn log_thread(
 ) -> Result<(), Error> {
     let mut stream = BufWriter::new(log_open(&path).await?);
     loop {
-        let e = rx.recv().await.ok_or_else(|| err_msg("dequeue"))?;
+        let e = match rx.recv().await {
+            Some(e) => e,
+            // every sender is gone: the process is shutting down (e.g. configuration rejected)
+            None => return Ok(()),
+        };
         if let Some(e) = e {
-            let mut line = format.to_string(e).context("deserializer error")?;
+            // a script format may fail for an individual record (index out of range, ...):
+            // skip that line, do not take the whole process down
+            let mut line = match format.to_string(e) {
+                Ok(line) => line,
+                Err(e) => {
+                    tracing::warn!("access log: failed to format record: {} cause: {:?}", e, e.cause);
+                    continue;
+                }
+            };
             line += "\r\n";
             stream
                 .write(line.as_bytes())
